@@ -60,7 +60,13 @@ pub fn check(t: &Trace<'_>, out: &mut CaseOut) -> bool {
                 .filter_map(|c| c.out.packets.first().filter(|p| matches!(p.pkt, CPacket::Connect { .. })).map(|p| {
                     let len = p.end - p.start;
                     let hdr = 1 + crate::refcodec::varint_len((len - 2) as u32).min(len - 1);
-                    len - hdr + 5
+                    // the identifier may have been replaced by a (longer) broker-assigned one since
+                    let seen_id = match &p.pkt {
+                        CPacket::Connect { client_id, .. } => client_id.len(),
+                        _ => 0,
+                    };
+                    let now_id = t.conns[..conn].iter().rev().find(|c| c.established && c.assigned.is_some()).and_then(|c| c.assigned.as_ref()).map(|s| s.len()).unwrap_or(t.log.cfg.client_id.len());
+                    len - hdr + 5 + now_id.saturating_sub(seen_id)
                 }))
                 .max();
             let rx_too_small = connect_need.is_none_or(|l| t.log.cfg.rx < l);
